@@ -3,6 +3,7 @@ import Model.C18.Fee
 `tx_builder.build_psbt`: the change-or-fee decision, with the size estimator as a parameter.
 
 Everything object-shaped is abstracted to the numbers the decision reads:
+  nIn       = len(inputs)  ("no inputs" is refused before anything else is read)
   totalIn   = Σ prevouts(psbt).value            totalOut = Σ outputs.value
   nOut      = len(outputs)                      change   = change_script_pub_key (None | bytes)
   rate, dustRate = the two FeeRates (already constructed, so ≥ 0 in every real call)
@@ -16,6 +17,8 @@ namespace Btc.C18
 open Btc Btc.Py
 
 structure FundArgs where
+  /-- `len(inputs)` -/
+  nIn : Nat
   totalIn : Int
   totalOut : Int
   nOut : Nat
@@ -39,6 +42,7 @@ def fundNoChange (a : FundArgs) (est : Bool → Except PyErr Int) : Except PyErr
   return ⟨a.totalIn - a.totalOut, none⟩
 
 def fund (a : FundArgs) (est : Bool → Except PyErr Int) : Except PyErr Funded := do
+  if a.nIn = 0 then throw .value                        -- "no inputs"
   if a.totalOut > Gen.Fee.MAX_SATOSHI then throw .value -- prevouts(psbt) → Tx.assert_valid
   match a.change with
   | none => fundNoChange a est
